@@ -204,24 +204,6 @@ def r5(ctx):
            sig="dialect entries written elsewhere: %s" % sorted(set(infer_writers)))
 
 
-def regex_shape(pat):
-    """Describe a pattern through re._parser: [(op, arg)...] flattened."""
-    import re._parser as sp
-    p = sp.parse(pat)
-    out = []
-    for op, av in p:
-        name = str(op)
-        if name == "MAX_REPEAT":
-            lo, hi, sub = av
-            inner = [(str(o), a) for o, a in sub]
-            out.append(("repeat", lo, "inf" if hi == sp.MAXREPEAT else hi, str(inner)))
-        elif name == "LITERAL":
-            out.append(("lit", chr(av)))
-        else:
-            out.append((name, str(av)))
-    return out
-
-
 def r6(ctx):
     """What inference records for a line: decided by the template round trip (c07.r_roundtrip, inferred mode: fmt, both
     separators, quoting, trailing semicolon, repeated keys and key order must be those the template was written in) and by
